@@ -82,14 +82,14 @@ def run_case(case):
         _, cg = C.experiment_graph(ex["episodes"])
     else:
         spec = S.rand_gen(case["spec_seed"], n_min=2, n_max=4, max_window=4)
-        flavour = rnd.choice(["plain", "ratio", "short", "train"])
+        flavour = case.get("flavour") or rnd.choice(["plain", "ratio", "short", "train"])
         sup_n = [n for n in spec["nodes"] if n["name"] == spec["supervisor"]][0]
         others = [n for n in spec["nodes"] if n["name"] != spec["supervisor"]]
         ts_max = rnd.choice([0.6, 1.0])
         if flavour == "ratio":
             sup_n["rate"] = rnd.choice([5, 8])
             f = rnd.choice(others)
-            f["rate"] = sup_n["rate"] * rnd.choice([4, 7, 10, 12])
+            f["rate"] = sup_n["rate"] * (rnd.choice([11, 12, 13]) if case.get("flavour") == "ratio" else rnd.choice([4, 7, 10, 12]))
             f["delay"] = ["det", round(0.3 / f["rate"], 5)]
         elif flavour == "short":  # a slow producer whose consumers' windows never fill
             f = rnd.choice(others)
@@ -257,5 +257,6 @@ def plan(tier, seed):
     ng, nr = (20, 6) if tier == "quick" else (300, 80)
     modes = ["mcs", "gen", "top"]
     cases = [dict(name=f"gen-{i}", kind="gen", spec_seed=seed * 100129 + i, mode=modes[i % 3], timeout=600) for i in range(ng)]
+    cases += [dict(name=f"ratio-{i}", kind="gen", flavour="ratio", spec_seed=seed * 100129 + 2000 + i, mode=["gen", "top"][i % 2], timeout=600) for i in range(4 if tier == "quick" else 40)]
     cases += [dict(name=f"rec-{i}", kind="rec", spec_seed=seed * 100129 + 4000 + i, mode=modes[i % 3], timeout=600) for i in range(nr)]
     return cases
